@@ -2,6 +2,7 @@ import ZkElGamal.Driver.Wire
 import ZkElGamal.Driver.Sigma
 import ZkElGamal.Driver.Enc
 import ZkElGamal.Driver.Range
+import ZkElGamal.Driver.Ae
 /-!
 `zkmodel` — the executable model. One op per line on stdin (`<id> <op> <args…>`),
 one result per line on stdout (`<id> <outcome>`); the same lines are run by the
@@ -41,6 +42,7 @@ def execOp (g : Unit → List CPt × List CPt) (op : String) (args : List String
   | "json" => opJson args
   | "tojson" => opToJson args
   | "elg" => opElg args
+  | "ae" => opAe args
   | _ => "bad-op"
 
 partial def loop (h : IO.FS.Stream) (out : IO.FS.Stream) (cache : IO.Ref (Option (List CPt × List CPt))) : IO Unit := do
